@@ -29,21 +29,33 @@ from harness import core
 MODULE = 'PyPhysim.Properties.C03'
 DRIVER = 'drv_c03'
 CLAIM = {
-    'technique': 'Lean 4 proof over a commutative semiring / Q / Int + regenerated block-size expressions '
-                 '+ exact differential correspondence',
-    'text': 'For every tap profile, antenna set-up, direction, path loss, fading realisation, input and '
-            'history, the modelled corrupt_data output is proved equal to the time-varying convolution with '
-            'the impulse response reported afterwards (length n + memory, linear), the frequency-domain '
-            'output to per-block multiplication by the FFT kernel of the same reported response for None / '
-            'index-array / slice selections (block size = number of selected carriers, regenerated from the '
-            'source), multiuser outputs to the superposition of the links, and discretisation to sorted '
-            'unique integer delays with merged powers summing to one. The model is tied to the code by '
-            'exact (rational) comparison on scripted Gaussian-integer fading.',
-    'note': 'Parameters of the model, not modelled code: the fading waveform/draw (theorems hold for every '
-            'process), sqrt of tap power and of path loss, np.fft.fft (theorems hold for every kernel; '
-            'linearity of the kernel is a hypothesis of the path-loss clause in the frequency domain), the '
-            'dB round trip of tap powers (compared at 1e-12). A Python exception ends the modelled history. '
-            'n = 0 transmissions and fft_size = 0 are outside the correspondence.',
+    'technique': 'Lean 4 theorems over an arbitrary commutative semiring / Q / Int about a hand model '
+                 '+ block-size and fading-schedule expressions regenerated from the source '
+                 '+ exact (rational) differential correspondence on scripted Gaussian-integer fading',
+    'text': 'Proved for every channel state (hence after any history), tap profile, antenna set-up, direction, '
+            'path loss, fading process and input: the modelled corrupt_data output equals the time-varying '
+            'convolution with the impulse response reported afterwards, has n + last-delay entries per row and is '
+            'linear in the input (SISO, MIMO, switched); SuChannel scales output and reported response by the same '
+            'factor; MuChannel/MuMimoChannel outputs are the entrywise sums over the links in both directions; the '
+            'frequency-domain output is the per-block product with the FFT kernel of the same reported response for '
+            'None / index-array / slice selections, where the block size regenerated from the source is proved equal '
+            'to the number of selected carriers for every slice (Python slice.indices / range semantics) and block b '
+            'uses the fading sample at position pos + b*stride; discretisation gives strictly increasing integer '
+            'delays (round-half-even), merged powers and power sum 1 (over Q). The model is tied to the code by exact '
+            'comparison of whole operation histories on the real TdlChannel / SuChannel / MuChannel / MuMimoChannel '
+            'objects and by first-principles oracles on the untouched code.',
+    'note': 'Trusted-base additions: the hand model (tied by correspondence only); harness/gen/c03.py (tiny integer '
+            'expression fragment incl. len(range(*indexes)) -> pyRangeLen); Python slice/range/numpy-indexing '
+            'semantics of Model/C03Py (compared exhaustively with CPython/numpy for all slices on axes <= 16 in the '
+            'thorough tier). Parameters, not modelled code: the fading waveform/draw (theorems hold for every '
+            'process; the harness replaces it by a scripted Gaussian-integer function of link/position/tap/antennas '
+            'while all position bookkeeping stays the real code), sqrt of tap power and of path loss, np.fft.fft '
+            '(theorems hold for every kernel; the path-loss clause in the frequency domain assumes the kernel is '
+            'homogeneous, checked numerically together with shape and DFT values), the dB round trip of tap powers '
+            '(compared at 1e-12). Partial: the multiuser frequency-domain clause is instantiated for SISO links '
+            '(MIMO links follow from mu_superposition + freq_mimo_spec but are not spelled out); a Python exception '
+            'ends the modelled history; n = 0 transmissions, fft_size = 0, boolean / 2-D index arrays and unsorted '
+            'hand-made profiles are outside model and correspondence; binary64 rounding is outside every theorem.',
 }
 
 SEEDMOD = 1 << 20
@@ -385,6 +397,10 @@ def gen_sel(rng, fft):
     sl = [ov(), ov(), step]
     if step == 0:
         return {'kind': 'slice', 'slice': sl}, None
+    for _ in range(6):       # mostly non-empty selections (an empty one is just a ZeroDivisionError)
+        if len(range(*slice(*sl).indices(fft))) > 0 or rng.chance(0.1):
+            break
+        sl = [ov(), ov(), step]
     return {'kind': 'slice', 'slice': sl}, len(range(*slice(*sl).indices(fft)))
 
 
@@ -580,12 +596,15 @@ def discretize_corr(ctx, n):
         try:
             prof = fading.TdlChannelProfile(linear2dB(np.array([float(p) for p in ps])),
                                             np.array([float(d) for d in ds]))
-        except ValueError:
-            # rms_delay_spread = sqrt(E[t^2] - E[t]^2) of a (nearly) single-delay profile: the
-            # difference rounds below zero in binary64 (constructor, outside this property)
-            ctx.branch('profile-ctor-math-domain-error')
+            dp = prof.get_discretize_profile(float(Ts))
+        except Exception as e:
+            # the model always discretises a valid profile; the oracle reports the concrete input
+            ctx.branch('impl-exception:discretize')
+            ctx.corr('TdlChannelProfile.get_discretize_profile', line, 'error:' + type(e).__name__, 'ok',
+                     nontrivial=len(ds) >= 2, key=line)
+            run_oracle(ctx, 'get_discretize_profile', {'Ts': fr2s(Ts), 'delays': [fr2s(d) for d in ds],
+                                                       'powers': [fr2s(p) for p in ps]})
             continue
-        dp = prof.get_discretize_profile(float(Ts))
         md, mp = r.split(' ')
         md = md[2:]
         mp = [Fraction(t) for t in mp[2:].split(',')]
@@ -652,6 +671,26 @@ def slice_corr(ctx, maxN, exhaustive):
             exp.append('error:IndexError')
     for line, e, r in zip(lines, exp, drv.ask(lines)):
         ctx.corr('numpy-index-array', line, e, r, key=line)
+
+
+def fft_contract(ctx, n):
+    """numeric contract of the external kernel np.fft.fft as the code calls it (axis 0, size n):
+    shape, value = explicit DFT of the cropped / zero-padded input, homogeneity"""
+    for _ in range(n):
+        L = ctx.rng.randint(1, 12)
+        N = ctx.rng.randint(1, 20)
+        inner = () if ctx.rng.chance(0.5) else (ctx.rng.randint(1, 3), ctx.rng.randint(1, 3))
+        v = np.array([ctx.rng.gauss() + 1j * ctx.rng.gauss() for _ in range(L * int(np.prod(inner or (1,))))]
+                     ).reshape((L,) + inner)
+        got = np.fft.fft(v, N, axis=0)
+        m = min(L, N)
+        exp = np.tensordot(dft_matrix(N)[:, :m], v[:m], axes=(1, 0))
+        s_ = complex(ctx.rng.gauss(), ctx.rng.gauss())
+        ok = (got.shape == (N,) + inner and allclose(got, exp)
+              and allclose(np.fft.fft(s_ * v, N, axis=0), s_ * got))
+        ctx.corr('np.fft.fft-contract', {'L': L, 'N': N, 'inner': list(inner)}, 'holds' if ok else 'violated', 'holds',
+                 key=('fftc', L, N, inner, float(v.flat[0].real)))
+        ctx.branch('fft:crop' if N < L else ('fft:pad' if N > L else 'fft:exact'))
 
 
 # --------------------------------------------------------------------------- oracles (first principles, real code)
@@ -800,7 +839,9 @@ def o_transmit(case):
             else:
                 y = ch.corrupt_data_in_freq_domain(sig, op['fft'], sel2py(op['sel']))
         except Exception as e:
-            return '%s:exception-%s:%s' % (kind, type(e).__name__, cls_in), repr(e)[:200]
+            # class from the input only (selection geometry resp. antenna set-up), not from the message
+            return ('%s:exception:%s' % (kind, slice_class(op['sel'], op['fft']) if k == 'fx' else cfg),
+                    '%s on %s: %r' % (type(e).__name__, cfg, e))
         # expected, from the responses reported now
         if mu:
             nrx, ntx = case['nrx'], case['ntx']
@@ -846,10 +887,14 @@ def o_linear(case):
         if case.get('p') is not None:
             ch.set_pathloss(case['p'])
         np.random.seed(case['npseed'] + 1)
-        if case['kind'] == 'td':
-            outs.append(np.asarray(ch.corrupt_data(sig)))
-        else:
-            outs.append(np.asarray(ch.corrupt_data_in_freq_domain(sig, case['fft'], sel2py(case['sel']))))
+        try:
+            if case['kind'] == 'td':
+                outs.append(np.asarray(ch.corrupt_data(sig)))
+            else:
+                outs.append(np.asarray(ch.corrupt_data_in_freq_domain(sig, case['fft'], sel2py(case['sel']))))
+        except Exception as e:
+            return ('%s:exception:%s' % (case['kind'], slice_class(case['sel'], case['fft']) if case['kind'] == 'fd'
+                                         else ('siso' if not mimo else 'mimo')), '%s: %r' % (type(e).__name__, e))
     if not allclose(outs[2], a * outs[0] + b * outs[1]):
         return 'not-linear:' + case['kind'], 'max dev %g' % float(np.max(np.abs(outs[2] - a * outs[0] - b * outs[1])))
     return None
@@ -861,12 +906,16 @@ def o_discretize(case):
     Ts = Fraction(case['Ts'])
     ds = [Fraction(d) for d in case['delays']]
     ps = [Fraction(p) for p in case['powers']]
+    idx0 = [py_round_half_even(d / Ts) for d in ds]
     try:
         prof = fading.TdlChannelProfile(linear2dB(np.array([float(p) for p in ps])),
                                         np.array([float(d) for d in ds]))
-    except ValueError:
-        return None         # constructor's rms_delay_spread sqrt of a rounded-negative variance (outside C03)
-    dp = prof.get_discretize_profile(float(Ts))
+        dp = prof.get_discretize_profile(float(Ts))
+    except Exception as e:
+        # a valid profile that cannot be built / discretised at all
+        return ('discretize:exception:' + ('single-delay' if len(set(ds)) == 1 else
+                                           ('one-output-tap' if len(set(idx0)) == 1 else 'several-delays')),
+                '%s: %r' % (type(e).__name__, e))
     got_d = [int(d) for d in dp.tap_delays]
     idx = [py_round_half_even(d / Ts) for d in ds]
     exp_d = sorted(set(idx))
@@ -1001,6 +1050,10 @@ def oracles(ctx, n_tx, n_lin, n_disc):
                 'ops': [{'op': 'fx', 'fft': fft, 'sel': {'kind': 'slice', 'slice': sl},
                          'x': gen_signal(core.Rng(9, 'c03w'), 1, 2 * B)}]}
         run_oracle(ctx, 'transmit', case)
+    for ds_, ps_ in (([Fraction(13, 10)], [Fraction(4, 5)]), ([Fraction(7, 10)], [Fraction(1, 6)]),
+                     ([Fraction(13, 10)] * 3, [Fraction(1), Fraction(1, 2), Fraction(1, 3)])):
+        run_oracle(ctx, 'get_discretize_profile', {'Ts': '1', 'delays': [fr2s(d) for d in ds_],
+                                                   'powers': [fr2s(p) for p in ps_]})
     for i in range(n_tx):
         level = ('tdl', 'su', 'mu')[i % 3]
         run_oracle(ctx, 'transmit', gen_oracle_case(ctx.rng, level))
@@ -1029,7 +1082,7 @@ def oracles(ctx, n_tx, n_lin, n_disc):
 REQUIRED = ['gen:jakes', 'gen:rayleigh', 'ant:siso', 'ant:mimo-nr!=nt', 'td:direct', 'td:switched', 'fd:direct',
             'fd:switched', 'sel:all', 'sel:idx', 'sel:slice', 'slice:neg-step', 'slice:step-not-dividing-span',
             'pathloss', 'history>=2', 'level:mu', 'level:su', 'level:tdl', 'disc:colliding-delays',
-            'disc:tie-at-half']
+            'disc:tie-at-half', 'fft:crop', 'fft:pad']
 
 
 def check(ctx):
@@ -1045,17 +1098,18 @@ def check(ctx):
     ctx.required_branches = list(REQUIRED)
     np.random.seed(ctx.rng.below(1 << 31))
     try:
-        correspondence(ctx, 240 if quick else 6000, 80 if quick else 1500, quick)
-        discretize_corr(ctx, 150 if quick else 5000)
-        slice_corr(ctx, 16 if quick else 10, exhaustive=not quick)
+        correspondence(ctx, 900 if quick else 9000, 300 if quick else 3000, quick)
+        discretize_corr(ctx, 600 if quick else 8000)
+        slice_corr(ctx, 16, exhaustive=not quick)
+        fft_contract(ctx, 100 if quick else 2000)
         if not quick:
-            ctx.extra['exhaustive_slices'] = 'all (start, stop, step) in [None, -N-2..N+2] x [None, -N-1..N+1], N <= 10'
+            ctx.extra['exhaustive_slices'] = 'all (start, stop, step) in [None, -N-2..N+2] x [None, -N-1..N+1], N <= 16'
     except core.Infra as e:
         if not ctx.broken:
             raise
         ctx.notes.append('correspondence skipped: %s' % e)
         ctx.required_branches = []
-    oracles(ctx, 90 if quick else 2500, 30 if quick else 600, 60 if quick else 2000)
+    oracles(ctx, 300 if quick else 4000, 90 if quick else 1200, 200 if quick else 3000)
 
 
 def search(ctx):
